@@ -13,9 +13,14 @@ import (
    I will be making some changes to the grammar but I do want it to be as close to the specification as possible
 */
 
+// regexp_group_base is the number of capture groups opened by earlier regexp
+// literals of the program being parsed (guarded by parse_mutex like the counter).
+var regexp_group_base int = 0
+
 func parse_regexp(tokens []*Token, token_index int) (AstExpression, int, error) {
 	regexp_token := tokens[token_index]
 	regexp := regexp_token.Lexeme
+	regexp_group_base = capture_group_number
 
 	results, _, err := parse_regexp_disjunction(regexp_token, regexp, 0)
 	if err != nil {
@@ -320,14 +325,17 @@ func parse_regexp_escape_characters(regexp_token *Token, regexp string, index in
 	}
 	c := regexp[index]
 	if c >= '1' && c <= '9' {
+		// \N counts the groups of its own regexp literal; the groups of earlier
+		// literals of the program keep their (program-wide) numbers
+		number := int(c - '0')
 		if index+1 >= len(regexp) {
-			return &AstVariable{fmt.Sprintf("_%c", c)}, index + 1, nil
+			return &AstVariable{fmt.Sprintf("_%d", regexp_group_base+number)}, index + 1, nil
 		}
 		d := regexp[index+1]
 		if d >= '0' && d <= '9' {
-			return &AstVariable{fmt.Sprintf("_%c%c", c, d)}, index + 2, nil
+			return &AstVariable{fmt.Sprintf("_%d", regexp_group_base+number*10+int(d-'0'))}, index + 2, nil
 		}
-		return &AstVariable{fmt.Sprintf("_%c", c)}, index + 1, nil
+		return &AstVariable{fmt.Sprintf("_%d", regexp_group_base+number)}, index + 1, nil
 	} else if c == 'd' {
 		return &AstCharacterClass{false, ClassDigit}, index + 1, nil
 	} else if c == 'D' {
